@@ -91,8 +91,8 @@ PROPS["C05"]["rule"] = STORE_RULE + ("; plus evictions that wait for a shard loc
                                      "waits until the evicting goroutine is parked inside removeEntry, overwrites with the store's own setShardWithoutLock, releases): the listener must be told the value the entry left with")
 PROPS["C06"] = store_prop(["Props/C06.v"], ["0", "1", "8", "3", "4", "11"], ["C06"],
     "Set/loader admission rules over the store model; Set results, immediate visibility and removal reasons compared with the real Store")
-PROPS["C06"]["go_tests"] = ["TestVerifStore", "TestVerifDoorkeeper", "TestVerifExpireOverlap"]
-PROPS["C06"]["impl_only_traces"] = ["expireoverlap"]
+PROPS["C06"]["go_tests"] = ["TestVerifStore", "TestVerifDoorkeeper", "TestVerifExpireOverlap", "TestVerifStorePool"]
+PROPS["C06"]["impl_only_traces"] = ["expireoverlap", "storepool"]
 PROPS["C06"]["rule"] = STORE_RULE + ("; plus the doorkeeper of one shard of a real Store (Doorkeeper on, no capacity pressure): 100..2600 Sets of non-resident keys of that shard (first and "
                                      "repeated sightings in three mixes that drive the reset counter past the filter capacity and grow the shard map past the filter's capacity), deletes, "
                                      "overwrites and Exist probes; verdict, reset counter, map size, filter capacity / bits / probes and the number of bits set compared after every operation")
@@ -163,8 +163,8 @@ PROPS["C10"] = {
 
 PROPS["C13"] = {
     "props_files": ["Props/C13.v"],
-    "go_tests": ["TestVerifFlight", "TestVerifFlightRecycle", "TestVerifStore", "TestVerifLateJoiner"],
-    "impl_only_traces": ["flightrecycle", "latejoiner"],
+    "go_tests": ["TestVerifFlight", "TestVerifFlightRecycle", "TestVerifStore", "TestVerifLateJoiner", "TestVerifForgetUnderShardLock"],
+    "impl_only_traces": ["flightrecycle", "latejoiner", "forgetlock"],
     "project_codes": {"store": ["8"]},
     "monitor_tags": ["C13"],
     "level": "proof",
@@ -323,8 +323,8 @@ PROPS["C02"]["rule"] = STORE_RULE + ("; plus writers of the same keys split wher
                                      "(the store model sends the event with the map update: this is the check of that abstraction on the real code)")
 for _p in ("C11", "C12", "C04"):
     PROPS[_p]["timeout"] = {"quick": 900, "thorough": 3000}
-PROPS["C01"]["go_tests"] = ["TestVerifStore", "TestVerifPoolAlias", "TestVerifRangeConcurrent", "TestVerifRBMutex", "TestVerifLateJoiner", "TestVerifStorePool"]
-PROPS["C01"]["impl_only_traces"] = ["poolalias", "rangeconc", "latejoiner", "storepool"]
+PROPS["C01"]["go_tests"] = ["TestVerifStore", "TestVerifPoolAlias", "TestVerifRangeConcurrent", "TestVerifRBMutex", "TestVerifLateJoiner", "TestVerifStorePool", "TestVerifForgetUnderShardLock"]
+PROPS["C01"]["impl_only_traces"] = ["poolalias", "rangeconc", "latejoiner", "storepool", "forgetlock"]
 PROPS["C01"]["rule"] = STORE_RULE + "; plus, for the entry-pool configurations (outside the model), concurrent runs of 8 goroutines on pool-enabled plain and loading stores of 4..13 entries over 48 keys, checking that every value read for a key was written or loaded for that key; and Range racing Delete / Set of the keys of the shard it is visiting (plain and pool): no visit of a key whose Delete has returned, no value older than a returned Set; and a loading Get that starts after a Delete of a freshly loaded key has returned, while the leader of that load is parked (hook H10) before the cleanup of its singleflight call: it must load again"
 PROPS["C01"]["assumptions"] = ["the theorems cover the entry pool disabled; with the pool enabled the property is exercised by monitors only: a concurrent harness ('never a value of another key') and the deterministic store histories re-run with the pool on (TestVerifStorePool: every value read is the latest write of its key)"]
 
